@@ -15,7 +15,7 @@ use serde_json::{json, Value};
 pub const META: Meta = Meta {
     id: "C06",
     level: "exploration",
-    rule: "Cases: entity length from a few hundred bytes to 2^64-1 (incl. 10^k and 2^k boundaries so that numbers have 1-20 digits), 2-8 (occasionally up to 40) satisfiable ranges built from anchors so that they overlap, touch, repeat and come out of order, in all three spec forms, sized so that the statement requires multipart (plus a band between the thresholds); one case in 33 with 9 to 400 small ranges of a large entity (number of parts); entities of about 2^64 bytes with one range covering nearly everything (multipart length at the edge of u64); 0-4 entity headers of length 0-200 incl. duplicate names and bytes >= 0x80, occasionally dozens of headers or a value of several KB; with and without a matching If-Range; chunked entity streams; optionally one astronomically large last part (checked on a drained prefix + arithmetic). Oracle: strict length-driven multipart parser written from RFC 2046/7233, reference range resolver, position-hashed content. Non-trivial = >= 2 parts parsed to the closing delimiter (or to the huge last part); distinct by fingerprint of the case.",
+    rule: "Cases: entity length from a few hundred bytes to 2^64-1 (incl. 10^k and 2^k boundaries so that numbers have 1-20 digits), 2-8 (occasionally up to 40) satisfiable ranges built from anchors so that they overlap, touch, repeat and come out of order, in all three spec forms, sized so that the statement requires multipart (plus a band between the thresholds); one case in 33 with 9 to 400 small ranges of a large entity (number of parts); entities of about 2^64 bytes with one range covering nearly everything (multipart length at the edge of u64); 0-4 entity headers of length 0-200 incl. duplicate names and bytes >= 0x80, occasionally dozens of headers or a value of several KB; with and without a matching If-Range; with and without another conditional header that is satisfied (If-Match own / * / list, If-None-Match other, If-Unmodified-Since later, If-Modified-Since earlier); chunked entity streams; optionally one astronomically large last part (checked on a drained prefix + arithmetic). Oracle: strict length-driven multipart parser written from RFC 2046/7233, reference range resolver, position-hashed content. Non-trivial = >= 2 parts parsed to the closing delimiter (or to the huge last part); distinct by fingerprint of the case.",
     assumptions: &[
         "harness entity honours the Entity contract",
         "a part longer than the drain cap must be the last one; the total is then checked arithmetically from the parsed prefix",
@@ -342,15 +342,34 @@ fn many_parts_strategy() -> BoxedStrategy<Case> {
 }
 
 fn main_strategy() -> BoxedStrategy<Case> {
-    (c06_lens(), reqgen::entity_headers_strategy(), reqgen::plan_strategy(), proptest::sample::select(reqgen::OPAQUES), 0u8..4, reqgen::mtime_strategy())
-        .prop_flat_map(|(l, headers, plan, opaque, if_range_mode, mtime)| {
-            (anchored_ranges(l), Just((l, headers, plan, opaque, if_range_mode, mtime)))
+    (c06_lens(), reqgen::entity_headers_strategy(), reqgen::plan_strategy(), proptest::sample::select(reqgen::OPAQUES), 0u8..4, reqgen::mtime_strategy(), 0u8..14)
+        .prop_flat_map(|(l, headers, plan, opaque, if_range_mode, mtime, other)| {
+            (anchored_ranges(l), Just((l, headers, plan, opaque, if_range_mode, mtime, other)))
         })
-        .prop_map(|((range, _huge), (l, headers, plan, opaque, if_range_mode, mtime))| {
+        .prop_map(|((range, _huge), (l, headers, plan, opaque, if_range_mode, mtime, other))| {
             let etag = reqgen::quote(opaque, false);
             let mut req = ReqSpec::get().with("range", range);
             if if_range_mode == 0 {
                 req = req.with("if-range", &etag.0);
+            }
+            // Half of the cases carry another conditional header that is satisfied (or cannot
+            // apply): the multipart answer, part headers included, must be the same.
+            if if_range_mode <= 1 {
+                match other {
+                    0 => req = req.with("if-match", &etag.0),
+                    1 => req = req.with("if-match", "*"),
+                    2 => req = req.with("if-none-match", "\"zzz-no-such-tag\""),
+                    3 => req = req.with("if-match", [b"\"zzz\", ".as_slice(), &etag.0].concat()),
+                    _ => {}
+                }
+            } else if let (3, Mtime::At(s, _)) = (if_range_mode, mtime) {
+                if s < 1_600_000_000 {
+                    match other {
+                        0 | 1 => req = req.with("if-unmodified-since", reqgen::http_date(s + 86_400)),
+                        2 | 3 => req = req.with("if-modified-since", reqgen::http_date(s.saturating_sub(86_400))),
+                        _ => {}
+                    }
+                }
             }
             Case {
                 ent: EntitySpec {
